@@ -85,6 +85,9 @@ type EngineConfig struct {
 	DeltaMode   string  `json:"delta_mode"`
 	FaultFree   bool    `json:"fault_free"`
 	OneTxBlocks bool    `json:"one_tx_blocks"`
+	// HostFollowsChain: the primary's host clock is moved to each block's time before the
+	// block executes (genesis time is then placed at or after the bubble's initial "now").
+	HostFollowsChain bool `json:"host_follows_chain"`
 	// HostStartSkewNs: how far the host clock is moved before the run starts.
 	Mods []string `json:"mods"`
 }
